@@ -75,6 +75,15 @@ fn main() {
             let path = args.get(2).cloned().unwrap_or_default();
             runner::replay_file(&path, args.iter().any(|a| a == "--quiet"))
         }
+        "tags" => {
+            let profiles: Vec<String> = args.get(2).map(|s| s.split(',').map(|x| x.to_string()).collect()).unwrap_or_default();
+            let seed = arg(&args, "--seed").and_then(|s| s.parse().ok()).unwrap_or(20261001);
+            let runs = arg(&args, "--runs").and_then(|s| s.parse().ok()).unwrap_or(3000);
+            let jobs = arg(&args, "--jobs")
+                .and_then(|s| s.parse().ok())
+                .unwrap_or_else(|| std::thread::available_parallelism().map(|n| n.get()).unwrap_or(4));
+            runner::tags(&profiles, seed, runs, jobs)
+        }
         "determinism" => {
             let prop = args.get(2).cloned().unwrap_or("C01".into());
             let seed = arg(&args, "--seed").and_then(|s| s.parse().ok()).unwrap_or(1);
